@@ -194,6 +194,10 @@ def parseOp (ws : List String) : Option Op :=
   | ["insstyle", sels, idx, io] => match parseSSels sels, parseIdx idx, parseBool io with
     | some sels, some idx, some io => some (.insStyleText sels idx io)
     | _, _, _ => none
+  | ["setnstext", i, p, u, c] => match i.toNat?, decCps p, decCps u, c.toList with
+    | some i, some p, some u, [a, b, d] => some (.setNsText i p u (a == '1') (b == '1') (d == '1'))
+    | _, _, _, _ => none
+  | ["rawdel", i] => i.toNat?.map .rawDel
   | ["insobj", sels, idx, io] => match parseRSels sels, parseIdx idx, parseBool io with
     | some sels, some idx, some io => some (.insStyleObj sels idx io)
     | _, _, _ => none
